@@ -1398,6 +1398,16 @@ package leveldb
 //@   safety off
 //@   ensures [C08,C09:the-builder-keeps-no-writer-it-has-dropped] b.tw == nil
 
+// C01 / C03: an entry the merge keeps goes into the builder's current output table as it is - this key with
+// this value - and a table exists afterwards whenever the append succeeded.
+//@ func (*tableCompactionBuilder).appendKV
+//@   props C01 C03
+//@   safety off
+//@   at before call (*tWriter).append#1
+//@     assert [C01,C03:a-kept-entry-is-written-as-it-is] sameslice(arg0, key) && sameslice(arg1, value) && recv == b.tw && b.tw != nil
+//@   ensures [C01,C03:a-kept-entry-went-into-a-table] result == nil ==> (b.tw != nil && calls("(*tWriter).append") == old(calls("(*tWriter).append")) + 1)
+//@ count (*tWriter).append
+
 // C07: an output table that could not be finished stays with the builder, so that the builder's cleanup drops it
 // (removes the partial file and gives its number back); a finished one is handed to the record and leaves the builder.
 //@ func (*tableCompactionBuilder).flush
